@@ -17,7 +17,7 @@ class P(Property):
     rule = ('dg.enc: stream ids 4k (k over 0..2^10 quick / 0..2^16 thorough, every varint form boundary 63/64, 16383/16384, '
             '2^30-1/2^30, 2^60-1, seeded random k) x payloads of 0..1500 bytes split into 0..4 chunks x seeded consumption '
             'patterns mixing chunk-bounded reads and raw advance(k) calls; dg.dec: all byte strings of length 0..2, all forms at '
-            'every truncation, quarter ids around 2^60, seeded random strings of 3..9 bytes. non-trivial = distinct cases in which '
+            'every truncation, quarter ids around 2^60, seeded random strings of 3..9 bytes, and complete datagrams presented as non-contiguous buffers cut at every position (dg.decc). non-trivial = distinct cases in which '
             'the payload is reached (dg.enc with a non-empty payload or dg.dec with a complete varint)')
 
     def cases(self, tier, rng):
@@ -75,6 +75,15 @@ class P(Property):
                     out.append('dg.dec ' + e.hex() + rb(rng, rng.randint(1, 6)).hex())
         for _ in range(3000 if tier == 'quick' else 300000):
             out.append('dg.dec ' + rb(rng, rng.randint(3, 9)).hex())
+        # the same wire bytes as non-contiguous buffers, cut at every position
+        for x in vals[:40 if tier == 'quick' else 2000]:
+            for l in (1, 2, 4, 8):
+                if x < 2 ** (8 * l - 2):
+                    e = enc(x, l) + rb(rng, rng.randint(0, 4))
+                    for i in range(1, len(e)):
+                        out.append('dg.decc %s.%s' % (e[:i].hex(), e[i:].hex()))
+                        if i + 1 < len(e):
+                            out.append('dg.decc %s.%s.%s' % (e[:i].hex(), e[i:i + 1].hex(), e[i + 1:].hex()))
         return out
 
     def spec_ok(self, case, out, spec):
